@@ -90,6 +90,8 @@ pub fn custom(m: Method, fa: f64, ia: f64) -> Params {
 }
 
 pub fn explore(ctx: &Ctx) {
+    // call sequences from non-initial states (see history.rs)
+    crate::history::explore(ctx, "policy", &crate::history::alphabet_policy(), 2);
     let quick = ctx.tier == Tier::Quick;
     ctx.rule("every (site, date, params, rounding) enumerated once; non-trivial = all seven entries exist and the full order chain was judged");
     ctx.assume("order measured as signed cyclic offset from the same call's Dhuhr; under a rounding mode the offset is the unrounded offset plus the rounding moves and 'within 12 h' is non-strict (DESIGN C05)");
